@@ -325,6 +325,10 @@ type Memory struct {
 	Saved          atomic.Uint64
 	// Value of Saved at the end of the last GC
 	SavedGc atomic.Uint64
+	// writeMx serializes the batch writes, storedNextId is the NextId of the
+	// machine record written last.
+	writeMx      sync.Mutex
+	storedNextId uint64
 
 	// sync lock (read: flush, write: sync)
 	syncMx sync.RWMutex
@@ -706,19 +710,25 @@ func (m *Memory) writeDb(rLocked bool) {
 			defer m.syncMx.RUnlock()
 		}
 
+		m.writeMx.Lock()
+		defer m.writeMx.Unlock()
 		wb := m.Db.NewWriteBatch()
 
-		// update machine record
-		encMach, err := m.encode(machRec)
-		if err != nil {
-			wb.Cancel()
-			m.onErr(err)
-			return
-		}
-		if err := wb.Set(machineKey(machRec.MachId), encMach); err != nil {
-			wb.Cancel()
-			m.onErr(err)
-			return
+		// update machine record, but never replace a newer one (the forked
+		// batches can land out of order)
+		if machRec.NextId >= m.storedNextId {
+			encMach, err := m.encode(machRec)
+			if err != nil {
+				wb.Cancel()
+				m.onErr(err)
+				return
+			}
+			if err := wb.Set(machineKey(machRec.MachId), encMach); err != nil {
+				wb.Cancel()
+				m.onErr(err)
+				return
+			}
+			m.storedNextId = machRec.NextId
 		}
 
 		for i, recTime := range times {
